@@ -212,7 +212,7 @@ def shrink_candidates(scn):
     yield from generic_world_candidates(scn)
 
 
-RUNS = {"quick": 3000, "thorough": 60000}
+RUNS = {"quick": 3000, "thorough": 50000}
 RULE = ("one evaluation = one seeded world (1-3 minerals, phase/fabric/regime/flow/path/params/"
         "texture/volumes/solver-tolerance/clock-rate all drawn per run) driven through a seeded "
         "history of update / update_all / restart / faulted-update ops; all C01 clauses are "
